@@ -503,6 +503,15 @@ func (g *ubjGen) containerBody(obj bool, depth int) val.V {
 	if r.P(1, 12) {
 		n = r.Range(10, 40)
 	}
+	if r.P(1, 30) && g.nodes < 400 {
+		// element counts whose byte value is itself a marker ('N' = 78,
+		// ']' = 93, '}' = 125, '#', '$', '[', '{', 'S', 'Z', 'T', 'F', 'i')
+		// or contains one in a wider encoding (334 = 0x014E)
+		n = Pick(r, []int{78, 93, 125, 35, 36, 91, 123, 83, 90, 84, 70, 105, 334, 20000 + 78})
+		if n > 1000 && !r.P(1, 10) {
+			n = 78
+		}
+	}
 	mode := r.Intn(3) // 0 plain, 1 counted, 2 typed+counted
 	if g.o.NoTyped && mode == 2 {
 		mode = 1
@@ -517,6 +526,9 @@ func (g *ubjGen) containerBody(obj bool, depth int) val.V {
 			ms = append(ms, '[', '{', '[', '{')
 		}
 		typ = Pick(r, ms)
+		if (typ == 'Z' || typ == 'T' || typ == 'F') && n > 60 {
+			n = 60 // zero-width elements: a large count is the recorded amplification finding, not a C06 document
+		}
 		g.b = append(g.b, '$', typ)
 	}
 	if mode >= 1 {
